@@ -3,7 +3,7 @@
    set_focus_valign_pending): the harness renders after every operation, which completes them. *)
 From Coq Require Import ZArith List Bool Lia ZifyBool.
 Import ListNotations.
-From Urwid Require Import PyBase PyList c08_container_gen Containers ContainersBase ContainersSel.
+From Urwid Require Import PyBase PyList c08_container_gen Containers ContainersBase ContainersSel ContainersStable.
 From Urwid Require MonitoredList PyListFacts MonitoredListProofs.
 Open Scope Z_scope.
 Arguments Z.add : simpl never. Arguments Z.sub : simpl never. Arguments Z.mul : simpl never.
@@ -101,7 +101,7 @@ Proof.
     destruct (is_empty n) eqn:Ee; [exfalso; eapply Hun; [exact H|exact Hl]|].
     apply mbind_inv in H. destruct H as (h1 & r & Hr & H).
     assert (Hoff : In l (snd r)).
-    { destruct (n_selc n && negb (is_vert (cmd_of (fst r)))).
+    { destruct (negb (is_vert (cmd_of (fst r)))).
       - apply ret_inv in H. destruct H as [_ <-]. exact Hl.
       - apply mbind_inv in H. destruct H as (h2 & moved & _ & H). apply ret_inv in H. destruct H as [_ Hq]. injection Hq as _ <-. exact Hl. }
     destruct (n_selc n); [|exfalso; eapply Hun; eassumption].
@@ -109,7 +109,7 @@ Proof.
     eapply Hsub; [|exact HN|auto|exact Hr|exact Hoff].
     pose proof (focus_child_list h id n c G Ee En) as Hf. rewrite K in Hf. exact Hf.
   - (* columns *)
-    destruct (is_empty n) eqn:Ee; [exfalso; eapply raise_inv; exact H|].
+    destruct (is_empty n) eqn:Ee; [exfalso; eapply Hun; [exact H|exact Hl]|].
     destruct (nthz (items n) (nfocus n)) as [w|] eqn:En; [|exfalso; eapply raise_inv; exact H].
     pose proof (focus_child_list h id n w G Ee En) as Hf. rewrite K in Hf.
     apply mbind_inv in H. destruct H as (h1 & u & Hw & H).
@@ -210,72 +210,43 @@ Proof.
   cbn [existsb]. generalize (cmd_of (Some key)). intros c H. repeat split; lia.
 Qed.
 
-(* a Pile whose cached selectable() is False has no selectable child (the cache is not stale in that direction) *)
-Definition PileCacheOK (h : heap) : Prop :=
-  forall id n, getn h id = Some n -> nk n = KPile -> n_selc n = false ->
-    forall c f, In c (items n) -> sel f h c = false.
-
-Lemma sel_same_set_pref n p : sel_same_node n (set_pref n p).
-Proof. repeat split. Qed.
-
-Lemma PileCacheOK_set_pref h id n p : getn h id = Some n -> PileCacheOK h -> PileCacheOK (setn h id (set_pref n p)).
-Proof.
-  intros G H x m Gx Kx Sx c f Hc. rewrite (sel_setn_same f h id n (set_pref n p) c G (sel_same_set_pref n p)).
-  rewrite getn_setn in Gx. destruct ((x =? id) && (0 <=? id) && (id <? zlen h)) eqn:E.
-  - injection Gx as <-. assert (x = id) by lia. subst x. eapply H; eauto.
-  - eapply H; eauto.
-Qed.
-
 Lemma nthz_in {A} (l : list A) i x : nthz l i = Some x -> In x l.
 Proof. unfold nthz. destruct (i <? 0); [discriminate|]. apply nth_error_In. Qed.
 
-Lemma pile_move_none f id up cands : forall h h' moved n,
-  getn h id = Some n -> (forall j c, In j cands -> nthz (items n) j = Some c -> sel f h c = false) ->
-  pile_move f id up cands h = (h', ROk moved) -> moved = false.
-Proof.
-  induction cands as [|j r IH]; intros h h' moved n G Hs H; cbn [pile_move] in H.
-  - apply ret_inv in H. apply H.
-  - apply mbind_inv in H. destruct H as (h1 & n1 & Hr & H). apply rd_inv in Hr. destruct Hr as [-> G1].
-    rewrite G in G1. injection G1 as <-.
-    apply mbind_inv in H. destruct H as (h1 & hh & Hg & H). apply get_heap_inv in Hg. destruct Hg as [-> ->].
-    destruct (nthz (items n) j) as [c|] eqn:En; [|exfalso; eapply raise_inv; exact H].
-    rewrite (Hs j c (or_introl eq_refl) En) in H. cbn [negb] in H.
-    eapply IH; [exact G| |exact H]. intros j' c' Hj. apply Hs. right. exact Hj.
-Qed.
-
-Lemma find_none {A} (p : A -> bool) l : (forall x, In x l -> p x = false) -> find p l = None.
-Proof.
-  induction l as [|a r IH]; intros H; [reflexivity|]. cbn [find]. rewrite (H a (or_introl eq_refl)).
-  apply IH. intros x Hx. apply H. right. exact Hx.
-Qed.
-
-Lemma row_sel_false f h n cells : any_sel f h n = false -> row_sel f h n cells = false.
-Proof.
-  intros Ha. unfold row_sel. apply not_true_is_false. intros Ht. apply existsb_exists in Ht.
-  destruct Ht as (i & _ & Hi). unfold cell_id in Hi.
-  destruct (nthz (items n) i) as [c|] eqn:En.
-  - unfold any_sel in Ha. assert (existsb (sel f h) (items n) = true); [|congruence].
-    apply existsb_exists. exists c. split; [eapply nthz_in; exact En|exact Hi].
-  - destruct f; cbn [sel] in Hi; [discriminate|]. rewrite getn_neg in Hi by lia. discriminate.
-Qed.
-
+(* no leaf that was offered the key handles it *)
 Definition NoHandler (h : heap) (key : list Z) (off : list Z) : Prop :=
   forall l n, In l off -> getn h l = Some n -> handles n key = false.
 
-Lemma NoHandler_set_pref h id n p key off :
-  getn h id = Some n -> NoHandler h key off -> NoHandler (setn h id (set_pref n p)) key off.
+(* the keys a leaf handles are never written: NoHandler can be moved along any model function *)
+Lemma NoHandler_static h h1 key off : InvI (same_static h) h1 -> NoHandler h key off -> NoHandler h1 key off.
 Proof.
-  intros G H l m Hl Gl. rewrite getn_setn in Gl.
-  destruct ((l =? id) && (0 <=? id) && (id <? zlen h)) eqn:E.
-  - injection Gl as <-. assert (l = id) by lia. subst l. exact (H id n Hl G).
-  - exact (H l m Hl Gl).
+  intros HI H l m Hl Gl. destruct (HI l m Gl) as (n0 & G0 & _ & Hk & _).
+  unfold handles. rewrite Hk. exact (H l n0 Hl G0).
+Qed.
+Lemma NoHandler_back h h1 key off : InvI (same_static h) h1 -> zlen h1 = zlen h -> NoHandler h1 key off -> NoHandler h key off.
+Proof.
+  intros HI Hz H l n Hl G.
+  destruct (getn h1 l) as [m|] eqn:Gm.
+  - destruct (HI l m Gm) as (n0 & G0 & _ & Hk & _). rewrite G in G0. injection G0 as <-.
+    unfold handles. rewrite <- Hk. exact (H l m Hl Gm).
+  - exfalso. unfold getn in *. pose proof (nthz_bounds _ _ _ G) as Hb. rewrite <- Hz in Hb.
+    unfold nthz in Gm. destruct (l <? 0) eqn:E; [lia|]. apply nth_error_None in Gm. unfold zlen in Hb. lia.
 Qed.
 
-Theorem unhandled_key_unchanged_nopending f :
-  forall id key h h' k1 off, NoPending h -> PileCacheOK h -> nonnav key = true ->
+Lemma InvI_set_pref h id n p : getn h id = Some n -> InvI (same_static h) (setn h id (set_pref n p)).
+Proof.
+  intros G x m Gx. rewrite getn_setn in Gx. destruct ((x =? id) && (0 <=? id) && (id <? zlen h)) eqn:E.
+  - injection Gx as <-. assert (x = id) by lia. subst x. exists n. repeat split. exact G.
+  - exists m. repeat split. exact Gx.
+Qed.
+
+(* THE clause, with no premise on pending requests or caches: whenever keypress returns (no model error) with a key
+   that is not bound to a navigation command and no leaf that was offered the key handles it, the key comes back. *)
+Theorem unhandled_key_unchanged_all f :
+  forall id key h h' k1 off, nonnav key = true ->
     kp f id key h = (h', ROk (k1, off)) -> NoHandler h key off -> k1 = Some key.
 Proof.
-  induction f as [|f IH]; intros id key h h' k1 off HN HC Hnn H Hnh; cbn [kp] in H; [exfalso; eapply raise_inv; exact H|].
+  induction f as [|f IH]; intros id key h h' k1 off Hnn H Hnh; cbn [kp] in H; [exfalso; eapply raise_inv; exact H|].
   destruct (nonnav_facts key Hnn) as (Nv & Nh & Nvp & Nup & Nleft & Npg & Nmax).
   apply mbind_inv in H. destruct H as (h0 & n & Hrd & H). apply rd_inv in Hrd. destruct Hrd as [-> G].
   assert (Hun : forall hc hc' r, unhandled key hc = (hc', ROk r) -> r = (Some key, [])).
@@ -287,22 +258,16 @@ Proof.
     destruct (is_empty n) eqn:Ee; [apply Hun in H; congruence|].
     apply mbind_inv in H. destruct H as (h1 & r & Hr & H).
     assert (Hoff : snd r = off).
-    { destruct (n_selc n && negb (is_vert (cmd_of (fst r)))).
+    { destruct (negb (is_vert (cmd_of (fst r)))).
       - apply ret_inv in H. destruct H as [_ <-]. reflexivity.
       - apply mbind_inv in H. destruct H as (h2 & moved & _ & H). apply ret_inv in H. destruct H as [_ Hq]. injection Hq as _ <-. reflexivity. }
-    destruct (n_selc n) eqn:Es.
-    + destruct (nthz (items n) (nfocus n)) as [c|] eqn:En; [|exfalso; eapply raise_inv; exact Hr].
-      destruct r as [k2 off2]. cbn [fst snd] in *. subst off2.
-      assert (k2 = Some key) by (eapply IH; eauto). subst k2.
-      rewrite Nv in H. cbn in H. apply ret_inv in H. destruct H as [_ Hq]. congruence.
-    + apply ret_inv in Hr. destruct Hr as [-> ->]. cbn [fst snd andb] in H.
-      apply mbind_inv in H. destruct H as (h2 & moved & Hm & H).
-      rewrite Nup in Hm.
-      assert (moved = false).
-      { eapply pile_move_none; [exact G| |exact Hm]. intros j c _ Hc. eapply HC; eauto. eapply nthz_in; exact Hc. }
-      subst moved. apply ret_inv in H. destruct H as [_ Hq]. congruence.
+    assert (Hk : fst r = Some key).
+    { destruct (n_selc n); [|apply Hun in Hr; subst r; reflexivity].
+      destruct (nthz (items n) (nfocus n)) as [c|] eqn:En; [|exfalso; eapply raise_inv; exact Hr].
+      destruct r as [k2 off2]. cbn [fst snd] in *. subst off2. eapply IH; eauto. }
+    rewrite Hk, Nv in H. cbn [negb] in H. apply ret_inv in H. destruct H as [_ Hq]. rewrite <- Hq in Hk. exact Hk.
   - (* columns *)
-    destruct (is_empty n) eqn:Ee; [exfalso; eapply raise_inv; exact H|].
+    destruct (is_empty n) eqn:Ee; [apply Hun in H; congruence|].
     destruct (nthz (items n) (nfocus n)) as [w|] eqn:En; [|exfalso; eapply raise_inv; exact H].
     apply mbind_inv in H. destruct H as (h1 & u & Hw & H).
     apply mbind_inv in H. destruct H as (h1' & hh & Hg & H). apply get_heap_inv in Hg. destruct Hg as [-> ->].
@@ -316,8 +281,7 @@ Proof.
       destruct r as [k2 off2]. cbn [fst snd] in *. subst off2.
       rewrite Nvp in Hw. cbn [negb] in Hw.
       apply w_pref_inv in Hw. destruct Hw as (n0 & G0 & ->). rewrite G in G0. injection G0 as <-.
-      eapply IH; [apply NoPending_set_pref; eassumption|apply PileCacheOK_set_pref; eassumption|exact Hnn|exact Hr|].
-      apply NoHandler_set_pref; assumption. }
+      eapply IH; [exact Hnn|exact Hr|]. eapply NoHandler_static; [apply InvI_set_pref; exact G|exact Hnh]. }
     rewrite Hk, Nh in H. cbn [negb] in H. apply ret_inv in H. destruct H as [_ Hq]. rewrite <- Hq in Hk. exact Hk.
   - (* gridflow *)
     destruct (is_empty n) eqn:Ee; [apply Hun in H; congruence|].
@@ -329,8 +293,7 @@ Proof.
       destruct r as [k2 off2]. cbn [fst snd] in *. subst off2. eapply IH; eauto. }
     destruct (any_sel f h n) eqn:Ea; cbn [andb] in H.
     + destruct (is_horiz (cmd_of (fst r))) eqn:Eh.
-      * (* cannot be: the key that came back is the non-navigation key *)
-        assert (Hoff : snd r = off).
+      * assert (Hoff : snd r = off).
         { match type of H with (match ?x with _ => _ end) _ = _ => destruct x end.
           - apply mbind_inv in H. destruct H as (h3 & u & _ & H). apply ret_inv in H. destruct H as [_ Hq]. injection Hq as _ <-. reflexivity.
           - apply ret_inv in H. destruct H as [_ <-]. reflexivity. }
@@ -343,10 +306,18 @@ Proof.
                apply mbind_inv in H. destruct H as (h3 & u & _ & H). apply ret_inv in H. destruct H as [_ Hq]. injection Hq as _ <-. reflexivity.
              - apply ret_inv in H. destruct H as [_ <-]. reflexivity. }
            rewrite (Hkr Hoff), Nv in Ev. discriminate.
-    + (* no cell is selectable: the display pile finds no selectable row *)
+    + (* no cell is selectable: the display pile is not selectable and returns the key *)
       apply Hun in Hr. subst r. cbn [fst snd] in H.
-      rewrite find_none in H by (intros cs _; apply row_sel_false; exact Ea).
-      apply ret_inv in H. destruct H as [_ Hq]. congruence.
+      match type of H with (match ?x with _ => _ end) _ = _ => destruct x eqn:Ef end.
+      * exfalso. apply find_some in Ef. destruct Ef as [_ Ef].
+        assert (row_sel f h n l = false); [|congruence].
+        apply not_true_is_false. intros Ht. unfold row_sel in Ht. apply existsb_exists in Ht.
+        destruct Ht as (i & _ & Hi). unfold cell_id in Hi.
+        destruct (nthz (items n) i) as [c|] eqn:En.
+        -- unfold any_sel in Ea. assert (existsb (sel f h) (items n) = true); [|congruence].
+           apply existsb_exists. exists c. split; [eapply nthz_in; exact En|exact Hi].
+        -- destruct f; cbn [sel] in Hi; [discriminate|]. rewrite getn_neg in Hi by lia. discriminate.
+      * apply ret_inv in H. destruct H as [_ Hq]. congruence.
   - (* frame *)
     apply mbind_inv in H. destruct H as (h1 & hh & Hg & H). apply get_heap_inv in Hg. destruct Hg as [-> ->].
     destruct (if n_part n =? 101 then n_b n else None) as [hd|].
@@ -356,9 +327,14 @@ Proof.
       * destruct (negb (n_part n =? 100)); [apply Hun in H; congruence|].
         destruct (sel f h (n_a n)); [eapply IH; eauto|apply Hun in H; congruence].
   - (* overlay *) eapply IH; eauto.
-  - (* list box *)
-    rewrite (HN id n G) in H.
-    apply mbind_inv in H. destruct H as (h1 & u & Hu & H). apply ret_inv in Hu. destruct Hu as [-> _].
+  - (* list box: a pending focus request is completed first; it writes no leaf data *)
+    apply mbind_inv in H. destruct H as (h1 & u & Hu & H).
+    assert (Hnh1 : NoHandler h1 key off).
+    { destruct (pending n).
+      - pose proof (lb_complete_static h f id true h (same_static_init h)) as HI. rewrite Hu in HI. cbn [fst] in HI.
+        eapply NoHandler_static; eassumption.
+      - apply ret_inv in Hu. destruct Hu as [-> _]. exact Hnh. }
+    clear Hu Hnh G. revert H Hnh1. generalize h1. clear h1 h. intros h H Hnh.
     apply mbind_inv in H. destruct H as (h1 & hh & Hg & H). apply get_heap_inv in Hg. destruct Hg as [-> ->].
     destruct (focus_child h id) as [fw|] eqn:Hfc; [|apply Hun in H; congruence].
     apply mbind_inv in H. destruct H as (h2 & r & Hr & H).
@@ -510,10 +486,4 @@ Lemma no_pending_b_ok h : no_pending_b h = true -> NoPending h.
 Proof.
   intros H id n G. unfold no_pending_b in H. rewrite forallb_forall in H.
   specialize (H n (nthz_in _ _ _ G)). destruct (pending n); [discriminate|reflexivity].
-Qed.
-Definition piles_selectable_b (h : heap) : bool := forallb (fun n => match nk n with KPile => n_selc n | _ => true end) h.
-Lemma piles_selectable_b_ok h : piles_selectable_b h = true -> PileCacheOK h.
-Proof.
-  intros H id n G K S. unfold piles_selectable_b in H. rewrite forallb_forall in H.
-  specialize (H n (nthz_in _ _ _ G)). rewrite K in H. congruence.
 Qed.
